@@ -183,7 +183,7 @@ Section Typed.
       + destruct Hs as [b ->]. apply mod_bool_ok; exact Hp.
     - (* PChoices *)
       assert (Hk : match k with KType _ | KDecimal => False | _ => True end) by (destruct k; try exact I; discriminate).
-      rewrite (hashable_scalar k y Hk Hy). eexists; reflexivity.
+      rewrite (hashable_scalar k y Hk Hy). destruct (unsub y); eexists; reflexivity.
     - (* PEqualTo *)
       apply py_eq_p_total.
       + destruct k; try discriminate; exact Hp.
